@@ -226,12 +226,15 @@ TEXT["C07"] = dict(
          "each write of exts/Set/NewVar as the code performs them targets an object allocated by that same operation, every value published "
          "earlier shows the same bindings afterwards, sibling extensions are independent of what ran in between, re-running gives the same "
          "result, CarCdr is memoised and re-traversal returns the same sequence; refutations for append-based exts and in-place Set; "
-         "Substitutions.String()'s in-place sort is harmless for distinct keys. Tie: random histories of the REAL exts / NewState / Set / "
+         "Substitutions.String()'s in-place sort is harmless for distinct keys. CarCdr itself is translated from micro/stream.go on every run "
+         "(harness/cmd/gencell -> gen/CellGen.v, a term of the statement language of CellLang.v) and proved to BE the model's carcdr on every heap "
+         "and cell (same result, heap and writes; never panics): C07_code_carcdr_is_model, C07_code_memo - a proof by cases on what the method does, "
+         "so a rewrite that keeps the behaviour keeps the proof. Tie for the rest: random histories of the REAL exts / NewState / Set / "
          "NewVar compared with the model's views of every published value, plus snapshot oracles (input state, every earlier answer, "
          "re-traversal, re-run) on micro programs over slices with spare capacity, gomini goal trees run concurrently, and concurrent.DisjPlus/ConjPlus.",
     note="partial in this sense: the theorems are about the transcribed write sets; that the Go functions perform no other writes is checked by the "
-         "harness's snapshots (and the race detector in the thorough tier), not proved. Trusted: Coq kernel + vm_compute; the harness",
-    technique="Coq proof (invariant by induction over histories of a heap model with write logs) + differential correspondence on histories + snapshot oracles",
+         "harness's snapshots (and the race detector, a small run in the quick tier and a larger one in the thorough tier), not proved - except for CarCdr, whose text is translated. Trusted: Coq kernel + vm_compute; the translator gencell; the harness",
+    technique="Coq proof (invariant by induction over histories of a heap model with write logs) + translation of CarCdr to a deep-embedded statement language on every run + differential correspondence on histories + snapshot oracles",
 )
 
 
